@@ -287,6 +287,8 @@ def check_free_recursive(ctx, rep, rule):
             enters.append(('self-call', b))
         if n == 'object::Object::free':
             frees.append((b, t))
+        elif n.endswith(('::for_each', '::try_for_each')) and len(t['args']) == 2 and t['args'][1].get('k') == 'const' and t['args'][1].get('fn') == 'object::Object::free':
+            frees.append((b, t))          # `found.into_iter().for_each(Object::free)`: free applied to every element drawn
     rep.ob(bool(frees), rule, fn.path, 'frees', 'the function frees objects (%d sites)' % len(frees), fn.loc())
     for k, (b, t) in enumerate(frees):
         src = None
@@ -301,6 +303,10 @@ def check_free_recursive(ctx, rep, rule):
             src = 'the parameter' if v == ('param', 1) else None
             drawn = None
             l = op['place']['local'] if op.get('k') in ('copy', 'move') else None
+            if callee_name(t) != 'object::Object::free':
+                # the function item handed to for_each: what is freed is every element of the iterated collection
+                drawn = _root_local(fn, op)
+                l = None
             seen_l = set()
             while l is not None and l not in seen_l and l > fn.arg_count:
                 seen_l.add(l)
